@@ -94,7 +94,22 @@ def _e1_generic(prop, rec):
     return bool(res["vios"]), f"tucan={s!r}; monitor findings: {[v[1]['summary'] for v in res['vios']]}"
 
 
+def _c10(prop, rec):
+    from .props_e3 import replay_c10
+
+    return replay_c10(prop, rec)
+
+
+def _strings(prop, rec):
+    from .props_strings import replay as r
+
+    return r(prop, rec)
+
+
 REPLAYERS = {
+    "string-of-molfile": _strings,
+    "respelling": _strings,
+    "c10-string": _c10,
     "e1-pair": _e1_pair,
     "e1-listing": _e1_listing,
     "e1-collision": _e1_collision,
